@@ -51,6 +51,22 @@ def _dec(x):
     return x
 
 
+def classify_exception(ctx, e, where="workload"):
+    """A step the workload expected to succeed raised.  If the exception was raised by the code under test it is a violation
+    witness (the workload only performs operations the property says are valid); if it comes from the harness itself the run is
+    inconclusive, never "held"."""
+    import traceback
+    from spverif.core.util import raise_site, tb_tail
+    tb = traceback.extract_tb(e.__traceback__)
+    inner = tb[-1].filename if tb else ""
+    root = os.path.abspath(repo_mod.REPO).rstrip("/") + "/"
+    if inner.startswith(root):
+        ctx.fail(where, "valid_operation_raised", f"{type(e).__name__}@{raise_site(e)}", None, error=repr(e), traceback=tb_tail(e, 8))
+    else:
+        ctx.inconc(f"harness error {type(e).__name__}: {e!r} at {tb[-1].filename.split('/')[-1] if tb else '?'}:{tb[-1].lineno if tb else 0}")
+        sys.stderr.write(tb_tail(e, 10))
+
+
 def cold_start_permutations(prop, tier, recorded, ctx):
     """The first case of every kind again, each ordering in a *fresh interpreter*: state that is set up lazily by whichever
     public function happens to run first (a table built on first use, a default captured at first call) must not matter."""
@@ -64,7 +80,8 @@ def cold_start_permutations(prop, tier, recorded, ctx):
     cases = list(first.values())[:12]
     if len(cases) < 2:
         return
-    orders = [list(reversed(cases)), cases[len(cases) // 2:] + cases[:len(cases) // 2]]
+    # every kind goes first once (up to nine fresh processes), the rest follows in rotated order; plus the reversed order
+    orders = [cases[i:] + cases[:i] for i in range(1, min(len(cases), 9))] + [list(reversed(cases))]
     tmp = tempfile.mkdtemp(prefix=f"spv-cold-{prop}-")
     try:
         for i, order in enumerate(orders):
@@ -83,6 +100,8 @@ def cold_start_permutations(prop, tier, recorded, ctx):
             with open(of) as f:
                 part = json.load(f)
             part["extra"] = {}
+            for reason in part.pop("inconclusive", []):
+                ctx.inconc("cold start: " + reason)
             part["inconclusive"] = []
             ctx.merge(part)
             ctx.extra["cold_start_processes"] = ctx.extra.get("cold_start_processes", 0) + 1
@@ -150,19 +169,7 @@ def run_in_process(mod, ctx: Ctx):
         if ctx.shard[0] == 0 and os.environ.get("SPV_NO_COLD") != "1":
             cold_start_permutations(ctx.prop, ctx.tier, named, ctx)
     except Exception as e:  # noqa: BLE001
-        # A step the workload expected to succeed raised.  If the exception was raised by the code under test it is a
-        # violation witness (the workload only performs operations the property says are valid); if it comes from the
-        # harness itself the run is inconclusive, never "held".
-        import traceback
-        from spverif.core.util import raise_site, tb_tail
-        tb = traceback.extract_tb(e.__traceback__)
-        inner = tb[-1].filename if tb else ""
-        root = os.path.abspath(repo_mod.REPO).rstrip("/") + "/"
-        if inner.startswith(root):
-            ctx.fail("workload", "valid_operation_raised", f"{type(e).__name__}@{raise_site(e)}", None, error=repr(e), traceback=tb_tail(e, 8))
-        else:
-            ctx.inconc(f"harness error {type(e).__name__}: {e!r} at {tb[-1].filename.split('/')[-1] if tb else '?'}:{tb[-1].lineno if tb else 0}")
-            sys.stderr.write(tb_tail(e, 10))
+        classify_exception(ctx, e)
     if getattr(mod, "SCRIBBLE", False):
         from spverif.san import scribble
         scribble.report(ctx)
@@ -245,7 +252,10 @@ def main(argv=None) -> int:
         with open(a.cases) as f:
             cases = json.load(f)
         for gname, args, kw in cases:
-            getattr(mod, gname)(ctx, *_dec(args), **_dec(kw))
+            try:
+                getattr(mod, gname)(ctx, *_dec(args), **_dec(kw))
+            except Exception as e:  # noqa: BLE001
+                classify_exception(ctx, e, "workload.cold_start")
         ctx.extra = {}
         with open(a.out, "w") as f:
             json.dump(ctx.partial(), f)
